@@ -2597,8 +2597,14 @@ static void compile_stmt(CG *cg, ASTNode *node) {
         break;
 
     case AST_UNSAFE_BLOCK: {
-        for (int i = 0; i < node->as.block.count; i++) {
-            compile_stmt(cg, node->as.block.statements[i]);
+        uint16_t scope_start = cg->local_count;
+        for (int i = 0; i < node->as.unsafe_block.count; i++) {
+            compile_stmt(cg, node->as.unsafe_block.statements[i]);
+        }
+        /* An unsafe block is a scope like any other block: its locals keep their slots but are
+         * no longer visible by name once it ends. */
+        for (uint16_t i = scope_start; i < cg->local_count; i++) {
+            cg->locals[i].name = (char *)"";
         }
         break;
     }
